@@ -3,6 +3,7 @@
   Runs the very definitions the theorems are about.
 -/
 import Driver.Wire
+import KodaModel.Cache
 
 open Lean (Json)
 open Koda Koda.Wire
@@ -35,6 +36,58 @@ def handleRun (j : Json) : D Json := do
   | none => pure (Json.mkObj [("error", "fuel")])
   | some (out, t) => pure (Json.mkObj [("out", outJ out), ("trace", Json.arr (t.map evJ).toArray)])
 
+def getOracle (j : Json) : D Oracle := do
+  let orc := match fldOpt j "oracle" with | some o => o | none => Json.mkObj []
+  let dT ← getTable orc "decimal"
+  let uT ← getTable orc "uuid"
+  let daT ← getTable orc "date"
+  let dtT ← getTable orc "datetime"
+  pure {
+    decimal := fun s => (dT.find? (fun e => e.1 == s)).bind (·.2)
+    uuid := fun s => (uT.find? (fun e => e.1 == s)).bind (·.2)
+    date := fun s => (daT.find? (fun e => e.1 == s)).bind (·.2)
+    datetime := fun s => (dtT.find? (fun e => e.1 == s)).bind (·.2) }
+
+def getMode (s : String) : D Mode :=
+  match s with
+  | "sync" => pure .sync
+  | "async" => pure .async
+  | m => throw s!"bad mode {m}"
+
+def oidOf : PyVal → Nat
+  | .list o _ => o | .tuple o _ => o | .set o _ => o | .dict o _ => o | .just o _ => o
+  | .inst o _ _ _ _ => o
+  | _ => 0
+
+def cevJ : CEv → Json
+  | .get m => Json.arr #["cget", modeJ m]
+  | .run m => Json.arr #["crun", modeJ m]
+  | .set m => Json.arr #["cset", modeJ m]
+
+def handleCache (j : Json) : D Json := do
+  let envL ← match fldOpt j "env" with
+    | some a => do (← a.getArr?).toList.mapM getV
+    | none => pure []
+  let env : Nat → V := fun i => envL.getD i (.always 0)
+  let v ← getV (← fld j "v")
+  let o ← getOracle j
+  let fuel ← match fldOpt j "fuel" with
+    | some f => f.getNat?
+    | none => pure 400
+  let keq : PyVal → PyVal → Bool ← match ← str j "key" with
+    | "identity" => pure (fun a b => oidOf a == oidOf b && oidOf a != 0)
+    | "typedEq" => pure typedEq
+    | k => throw s!"bad key {k}"
+  let hist ← (← arr j "history").toList.mapM (fun c => do
+    pure (← getMode (← str c "mode"), ← getVal (← fld c "x")))
+  let bare : Mode → PyVal → Out := fun m x =>
+    match run o env m fuel v x with
+    | some (r, _) => r
+    | none => .raised .other
+  let res := (Cache.runHist keq bare [] hist).2
+  pure (Json.mkObj [("calls", Json.arr (res.map (fun c =>
+    Json.mkObj [("out", outJ c.1), ("cev", Json.arr (c.2.map cevJ).toArray)])).toArray)])
+
 def handle (line : String) : Json :=
   match Json.parse line with
   | .error e => Json.mkObj [("error", "bad-json"), ("detail", e)]
@@ -42,6 +95,7 @@ def handle (line : String) : Json :=
     let r : D Json := do
       match ← str j "op" with
       | "run" => handleRun j
+      | "cache" => handleCache j
       | "ping" => pure (Json.mkObj [("pong", true)])
       | op => throw s!"bad-op {op}"
     match r with
